@@ -110,8 +110,10 @@ import os, subprocess, tempfile
 VERIF = os.path.dirname(os.path.dirname(os.path.abspath(__file__)))
 
 
-def capture_sql(repo):
-    """runs harness/sqlcap/sqlcap_test.go as an overlay test of internal/storage/ledger in `repo`; returns the records"""
+def capture_sql(repo, filter_cases=None):
+    """runs harness/sqlcap/sqlcap_test.go as an overlay test of internal/storage/ledger in `repo`; returns the records.
+    With filter_cases (list of dicts: id, resource, filter, pit, oot, insertionDate, features, alone, op) the statements
+    for those filter ASTs are captured instead."""
     d = tempfile.mkdtemp(prefix="sqlcap-")
     try:
         ov = os.path.join(d, "overlay.json")
@@ -120,7 +122,13 @@ def capture_sql(repo):
         env = dict(os.environ, GOFLAGS="-mod=mod", GOPROXY="off", VERIF_SQLCAP_OUT=out)
         env.pop("GOTOOLCHAIN", None) if env.get("GOTOOLCHAIN") == "local" else None
         env.pop("GOSUMDB", None) if env.get("GOSUMDB") == "off" else None
-        p = subprocess.run(["go", "test", "-vet=off", "-count=1", "-overlay", ov, "-run", "^TestVerifSQLCap$", "./internal/storage/ledger/"],
+        test = "^TestVerifSQLCap$"
+        if filter_cases is not None:
+            fin = os.path.join(d, "filters.json")
+            json.dump(filter_cases, open(fin, "w"))
+            env["VERIF_SQLCAP_FILTERS"] = fin
+            test = "^TestVerifSQLCapFilters$"
+        p = subprocess.run(["go", "test", "-vet=off", "-count=1", "-overlay", ov, "-run", test, "./internal/storage/ledger/"],
                            cwd=repo, env=env, capture_output=True, text=True, timeout=900)
         if p.returncode != 0 or not os.path.exists(out):
             raise RuntimeError("sqlcap failed: " + (p.stdout + p.stderr)[-2000:])
@@ -156,6 +164,12 @@ def dump_tables(tables):
                             row[c] = str(m.eval(v.z, model_completion=True))
                         elif v.kind == "comp":
                             row[c] = {k: str(m.eval(x.z, model_completion=True)) for k, x in v.z.items()}
+                        elif v.kind == "addrset":
+                            row[c] = [str(m.eval(x, model_completion=True)) for g, x in v.z if z3.is_true(m.eval(g, model_completion=True))]
+                        elif v.kind == "arr":
+                            import sqlsym as _s
+                            n = m.eval(_s.NSEG(v.z), model_completion=True)
+                            row[c] = {"n": str(n), "segments": [str(m.eval(_s.SEG(v.z, z3.IntVal(i)), model_completion=True)) for i in range(max(0, min(4, n.as_long() if z3.is_int_value(n) else 0)))]}
                         elif v.kind == "json":
                             row[c] = {k: str(m.eval(val, model_completion=True)) for k, (pres, val) in v.z.items() if z3.is_true(m.eval(pres, model_completion=True))}
                     rows.append(row)
